@@ -115,13 +115,14 @@ def leaves(n: Names) -> list[tuple]:
         ("cycle", None, (I(1), I(2))),
         ("cycle", S("grp"), (I(1), I(2))),
         ("cycle", None, (V(a), I(2))),
+        ("cycle", S("a b"), (I(1), I(2))),
         ("echo", V(a)),
         ("break",),
         ("continue",),
         ("comment", "hash", " c "),
         ("comment", "inline", " c "),
         ("comment", "block", " c "),
-        ("raw", "{{ r }}"),
+        ("raw", " {{ r }}\n"),
         ("macro", m, (("x", None), (b, I(2))), (("text", "("), ("out", V("x")), ("out", V(b)), ("out", V(a)), ("assign", a, I(7)), ("text", ")"))),
         ("call", m, (I(1),), ()),
         ("call", m, (), ((b, V(a)),)),
@@ -251,6 +252,7 @@ def wide_primitives(n: Names) -> list[tuple]:
         ("tstr", (FL(V(g), flt("upcase")),)),
         ("tstr", (("lit", "it's ${"), FL(S("in'ner")), ("lit", '"q"'))),
         ("tstr", (FL(("tstr", (("lit", "n"), FL(V(g)))), flt("append", S("!"))), ("lit", "z"))),
+        ("raw", "['a b'].c"), ("raw", "['" + g + "'].size"), ("raw", "['a\\nb']"), ("raw", h + "['x\\ny'].z"), ("raw", h + '["q\\"q"]'),
     ]
     return prims
 
@@ -273,6 +275,8 @@ def wide_filters(n: Names) -> list[tuple]:
         (flt("where", S("a"), I(1)),),
         (flt("where", ("lambda", (x,), ("cmp", "==", V(x, "a"), I(1)))), flt("map", S("a")), flt("join", S("-"))),
         (flt("find", ("lambda", (x, "idx"), ("and", ("cmp", ">", V("idx"), I(0)), V(x)))),),
+        (flt("where", ("lambda", (x,), ("and", ("paren", ("or", V(x, "a"), V(x, "z"))), V(x, "k")))), flt("size")),
+        (flt("where", ("lambda", (x,), ("or", V(x, "z"), ("paren", ("and", V(x, "a"), ("paren", ("not", V(x, "k")))))))), flt("size")),
         (flt("sort", ("lambda", (x,), V(x, "a"))), flt("first")),
         (flt("join", S(", ")),),
         (flt("json"),),
@@ -330,6 +334,10 @@ def bool_exprs(n: Names) -> list[tuple]:
         ("not", ("not", V(g))),
         ("or", ("not", V(g)), ("and", V(h), ("not", V(arr)))),
         ("cmp", "==", ("paren", ("cmp", "<", V(g), I(2))), TRUE),
+        ("or", ("and", V(g), ("paren", ("not", V(h)))), V(arr)),
+        ("and", ("or", V(g), ("paren", ("not", V(h)))), V(arr)),
+        ("cmp", "==", ("paren", ("not", V(g))), ("paren", ("not", V(h)))),
+        ("or", ("paren", ("and", ("paren", ("not", V(g))), V(h))), ("paren", ("not", ("paren", ("or", V(arr), V(g)))))),
     ]
     return out
 
